@@ -6,8 +6,12 @@ import numpy as np
 
 from ..core import Exhausted
 from ..gen import pauliops as G
+from fractions import Fraction
+
+from ..gen import paulibig as GB
 from ..gen import paulimag as GM
 from ..ref import paulidense as D
+from ..ref import pauliexact as X
 
 ID = "C03"
 LEVEL = "exploration"
@@ -15,14 +19,17 @@ LEVEL_NOTE = (
     "trusted: rv/ref/paulidense.py + rv/ref/pauli.py (dense Pauli matrices by bit arithmetic, cross-checked "
     "against each other at start-up), numpy; tolerance 1e-12*scale for dyadic coefficients (multiples of 1/8: "
     "every intermediate exact), 1e-12*scale + 1e-8*(#terms+1) for generic floats (the library drops |c|<=1e-8); "
-    "equality is only judged outside the tolerance grey zone; widths <= 7 used qubits"
+    "equality is only judged outside the tolerance grey zone; widths <= 7 used qubits; large magnitudes and "
+    "exponents above 8: rv/ref/pauliexact.py (Pauli strings as bit masks, coefficients as exact rationals, "
+    "cross-checked against the dense reference at start-up), each string's coefficient to 1e-12 of its uncancelled size"
 )
 RULE = (
     "seeded generator by input class: pairs_exh = EVERY ordered pair of Pauli strings on 2 qubits (256, quick) / "
     "3 qubits (4096, thorough), each with one dyadic and one generic complex coefficient pair, through * in both "
     "orders, + and -, term/sum mixtures; sums = random terms and sums of 0-5 terms (duplicates, cancelling "
     "duplicates, zero coefficients, constants, empty sum, qubit indices with gaps up to 12) under + - *; scalars = "
-    "int/float/complex/bool on either side of + - * and as divisor; powers = exponents 0-5 (and rejected ones); "
+    "int/float/complex/bool on either side of + - * and as divisor; powers = exponents 0-5 (and rejected ones), one "
+    "case in seven exponents 9-64 of terms and of sums on <= 2 qubits; "
     "simplify = un-simplified sums incl. coefficients around the 1e-8 drop threshold; equality = pairs denoting "
     "the same matrix by different routes / term orders / coefficient types and pairs differing by >= 1e-3; "
     "magnitudes = coefficients from 1e-5 to 1e6 (dyadic: k*2^e, e = -10..17): like terms with LARGE coefficients that "
@@ -32,8 +39,20 @@ RULE = (
     "first USED (hashed, put in sets / dict keys, compared, simplified, printed, circuits / cached properties read, "
     "arithmetic discarded) and only then combined (scalar * and /, + - * **, chains through earlier results); each "
     "result is compared in both directions with an operator built independently from its own terms in another order "
-    "and with a perturbed one, equal terms must hash alike, and the operands must still denote their matrices. "
-    "non-trivial = a Y operator or two different letters on one qubit is involved, or a sum with >= 2 terms; "
+    "and with a perturbed one, equal terms must hash alike, and the operands must still denote their matrices; "
+    "bigcoef = EXACT integer coefficients (Python ints, a share spelled as integer-valued floats / complex, Gaussian "
+    "integers, a few non-integral floats) whose powers, products and sums cross 2^31, 2^32, 2^53, 2^63, 2^64, 2^100, "
+    "2^127, 2^128, 3.4e38, 2^200, 1e150, 2^512, 2^900 while every operand is far inside: term ** n (bases 2..16 with "
+    "exponents up to ~900, bases 1e2..1e6 with moderate exponents, k-th roots of a boundary +-1 to the k, bases below 1 "
+    "up to exponent 1100) alone, as one-term sum, as repeated product and as x^a * x^(n-a); sums of 2-3 terms on <= 2 "
+    "qubits to exponents 9-100; products of terms / sums whose coefficient products land on a boundary (both orders, "
+    "squares and cubes, a third factor); like terms whose integer coefficients add up across a boundary (each part "
+    "inside it, boundary-1 plus 1, twice the boundary coming back down) through simplify, + and - of terms / sums, "
+    "builtin sum, constants arriving as plain numbers; int / float / complex scalars on either side and as divisor; one "
+    "integer reached by different routes compared (and hashed) against itself and against integers that differ from it "
+    "by 2^31, 2^32, 2^63, 2^64. "
+    "non-trivial = a Y operator or two different letters on one qubit is involved, or a sum with >= 2 terms, or (bigcoef) "
+    "an exact result of at least 2^31; "
     "distinct = distinct canonical case strings"
 )
 ASSUMPTIONS = [
@@ -44,6 +63,22 @@ ASSUMPTIONS = [
     "a plain number is lifted to the constant term c*I, so 'empty sum == 0' compares with the un-simplified term 0*I and is "
     "counted as out of domain (observed result recorded under observed['eq:empty-sum-vs-zero-number'])",
     "numpy scalars as operands and non-finite coefficients are outside the workload",
+    "coefficients are plain Python numbers (bool, int of any size, float, complex); Fraction / Decimal / sympy numbers are "
+    "not: the constructor stores them but scalars of these types are rejected by the library's own type check and the "
+    "annotated coefficient type is complex",
+    "large magnitudes (a coefficient >= 2^24, a product >= 2^45, an exponent > 8, every call of the bigcoef class) are judged "
+    "by exact rational arithmetic, string by string: |result - exact| <= 1e-12 * (sum of the absolute values of everything "
+    "that contributes to that string) [* bit length of the exponent for **], plus the 1e-8 drop slack of the dense oracle "
+    "unless every operand coefficient is an integer (integers stay integers under + - * **, so nothing but an exact zero "
+    "may be dropped whatever the exponent; for ** of a single string the slack is 2e-8 flat). This is the accuracy any "
+    "order of binary64 evaluation keeps; exactness of Python-int coefficients beyond it is NOT demanded (the library itself "
+    "turns them into floats in ** and in products with a phase)",
+    "a call whose uncancelled result (or an operand) exceeds 1e300, or a divisor below 1e-300, is out of domain: binary64 "
+    "cannot hold the result, the unchanged library answers inf or raises OverflowError there (observed: PauliTerm('X0', 2) "
+    "** 1100 = inf*I, 2**1100 * term raises, hash of a coefficient above 1.8e302 raises), and the property speaks of real "
+    "and complex coefficients, which an overflowed value is not; a finite legal result below that bound must be the right one",
+    "== is not judged when a coefficient exceeds 1e150 (the dense reference would have to square it)",
+    "** of a sum that can reach more than 256 distinct strings is judged up to exponent 8 only (dense reference)",
     "operand-unchanged: an arithmetic operation, comparison, hash or simplification leaves the matrices denoted by its "
     "operands as they were (otherwise 'the corresponding matrix operation' on those operands is not defined for the next use)",
 ]
@@ -66,7 +101,7 @@ _LIB = None
 
 
 def classes(tier):
-    return ["pairs_exh", "sums", "scalars", "powers", "simplify", "equality", "magnitudes", "history"]
+    return ["pairs_exh", "sums", "scalars", "powers", "simplify", "equality", "magnitudes", "history", "bigcoef"]
 
 
 # ----------------------------------------------------------------------------- oracle helpers
@@ -146,12 +181,179 @@ def _register(*opds):
     return qmap, n
 
 
+# ----------------------------------------------------------------------------- exact oracle (large magnitudes)
+# Calls whose operands or results are LARGE (a coefficient of 2^24 or more, a product of 2^45 or more, an exponent
+# above 8) and every call of the `bigcoef` class are judged by the exact reference rv/ref/pauliexact.py instead of
+# the dense double-precision one: operands are read as exact rationals (Python ints of any size, binary64 floats),
+# the expected operator is computed without rounding, and the result is compared STRING BY STRING to
+#     REL * weight(string)   (+ the 1e-8 drop slack unless every operand coefficient is an integer)
+# where weight(string) is what the coefficient would be if nothing cancelled.  Floating point evaluation in any
+# order stays within a few units in the last place of that weight, so nothing stricter than the dense oracle's
+# 1e-12 relative accuracy is demanded - but a term that is wrong by 2^64 is seen even when another term of the same
+# operator is 1e40, and no comparison can overflow.  Integer operands have integer results under + - * **
+# (granularity 1, clear of the 1e-8 drop threshold for every power), so the slack-free regime applies to them only.
+BIG_COEFF = 2.0**24
+BIG_SCALE = 2.0**45
+RANGE = Fraction(10) ** 300  # results whose uncancelled size exceeds this are out of domain (binary64 would overflow)
+REL = Fraction(1, 10**12)
+DROP = Fraction(1, 10**8)
+_EXACT_ALL = False  # set while a `bigcoef` case runs
+
+
+def _xoperand(x):
+    T, S = _lib()
+    if isinstance(x, (T, S)):
+        tl = X.term_list(x)
+        return None if tl is None else ("term" if isinstance(x, T) else "sum", tl)
+    if isinstance(x, (bool, int, float, complex)):
+        c = X.number(x)
+        return None if c is None else ("num", c)
+    return None
+
+
+def _xop(opd):
+    return X.constant(opd[1]) if opd[0] == "num" else X.operator(opd[1])
+
+
+def _maxmag(x):
+    """largest |coefficient| of a library object / |x| of a number as a float; inf when it cannot be told"""
+    try:
+        if isinstance(x, (bool, int, float, complex)):
+            return float(abs(x))
+        return max([float(abs(t.coefficient)) for t in x.terms], default=0.0)
+    except Exception:
+        return math.inf
+
+
+def _big_binary(sym, left, right):
+    if _EXACT_ALL:
+        return True
+    a, b = _maxmag(left), _maxmag(right)
+    if a >= BIG_COEFF or b >= BIG_COEFF:
+        return True
+    if sym == "*":
+        return a * b >= BIG_SCALE
+    if sym == "/":
+        return b != 0 and a / b >= BIG_SCALE
+    return False
+
+
+def _big_pow(base, power):
+    if _EXACT_ALL or power > 8:
+        return True
+    m = _maxmag(base)
+    return m >= BIG_COEFF or (m > 1 and power * math.log2(m) >= 45)
+
+
+def _mismatch_text(bad):
+    key, got, want, err, tol = bad
+
+    def f(v):
+        return f"{float(v):.3e}" if abs(v) < 10**300 else "over 1e300"
+
+    return (f"coefficient of {X.fmt_key(key)} is {X.show(got)}, exact value {X.show(want)} "
+            f"(off by {f(err)}, allowed {f(tol)})")
+
+
+def _exact_binary(mon, hook, sym, left, right, call, text):
+    """True when the call has been dealt with here (verdict or out of domain); False = let the dense oracle decide"""
+    L, R = _xoperand(left), _xoperand(right)
+    if L is None or R is None or (L[0] == "num" and R[0] == "num"):
+        return False
+    if sym == "/" and (R[0] != "num" or R[1] == (0, 0)):
+        return False
+    a = _xop(L)
+    nl, nr = _nterms(L), _nterms(R)
+    if sym == "/":
+        if X.mag(R[1]) < 1 / RANGE:
+            mon.note("exact:beyond-binary64-range")
+            mon.out_of_domain(hook)
+            return True
+        exp, nt = X.scale(a, R[1], divide=True), nl
+    else:
+        b = _xop(R)
+        if sym == "+":
+            exp, nt = X.add(a, b), nl + nr
+        elif sym == "-":
+            exp, nt = X.add(a, b, -1), nl + nr
+        else:
+            exp, nt = X.mul(a, b), nl * nr
+    if X.total_weight(exp) > RANGE or X.total_weight(a) > RANGE or (sym != "/" and X.total_weight(b) > RANGE):
+        mon.note("exact:beyond-binary64-range")
+        mon.out_of_domain(hook)
+        return True
+    if call.exc is not None:
+        mon.violation(f"raises:{hook}", f"{text()} raised {call.exc!r}")
+        return True
+    res = _xoperand(call.result)
+    if res is None or res[0] == "num":
+        mon.violation(f"result-type:{hook}", f"{text()} returned {call.result!r}")
+        return True
+    integral = sym != "/" and X.all_integral(L[1], R[1])
+    slack = Fraction(0) if integral else DROP * (nt + 1)
+    bad = X.compare(res[1], exp, REL, slack)
+    mon.note("regime:exact-integers" if integral else "regime:exact-generic")
+    if bad is not None:
+        mon.violation(f"wrong-matrix:{hook}", f"{text()} = {call.result!r}: {_mismatch_text(bad)}")
+    else:
+        mon.ok(hook)
+    return True
+
+
+def _exact_pow(mon, hook, base, power, call):
+    B = _xoperand(base)
+    if B is None or B[0] == "num":
+        return False
+    keys = {k for k, _ in B[1]}
+    used = 0
+    for x, z in keys:
+        used |= x | z
+    w = bin(used).count("1")
+    k = min(max(1, len(keys)) ** max(1, power), 4**w)
+    if k > 256 or power > 5000:
+        return False
+    a = _xop(B)
+    s = max(Fraction(1), X.total_weight(a))
+    if power * math.log10(float(s) if s < RANGE else 1e300) > 300:
+        mon.note("exact:beyond-binary64-range")
+        mon.out_of_domain(hook)
+        return True
+    if call.exc is not None:
+        mon.violation(f"raises:{hook}", f"({base!r}) ** {power} raised {call.exc!r}")
+        return True
+    res = _xoperand(call.result)
+    if res is None or res[0] == "num":
+        mon.violation(f"result-type:{hook}", f"({base!r}) ** {power} returned {call.result!r}")
+        return True
+    exp = X.power(a, power)
+    integral = X.all_integral(B[1])
+    if integral:
+        slack = Fraction(0)
+    elif len(keys) <= 1:
+        # one string: nothing is ever added, so the only thing the 1e-8 threshold can do is flush the final
+        # coefficient (an intermediate one is below it only if the final one is, or the base exceeds 1)
+        slack = 2 * DROP
+    else:
+        slack = DROP * (k + 1) * max(1, power) * s ** max(0, power - 1)
+    bad = X.compare(res[1], exp, REL * max(1, power.bit_length()), slack)
+    mon.note(f"pow:exponent={power if power <= 8 else '9-16' if power <= 16 else '17-64' if power <= 64 else '65+'}")
+    mon.note("regime:exact-integers" if integral else "regime:exact-generic")
+    if bad is not None:
+        mon.violation(f"wrong-matrix:{hook}", f"({base!r}) ** {power} = {call.result!r}: {_mismatch_text(bad)}")
+    else:
+        mon.ok(hook)
+    return True
+
+
 # ----------------------------------------------------------------------------- monitors: + - * /
 def _mk_binary(hook, sym, reflected):
     def post(mon, call):
         me = call.args[0]
         other = call.args[1] if len(call.args) > 1 else call.kwargs.get("other")
         left, right = (other, me) if reflected else (me, other)
+        if _big_binary(sym, left, right) and _exact_binary(
+                mon, hook, sym, left, right, call, lambda: f"{left!r} {sym} {right!r}"):
+            return
         L, R = _operand(left), _operand(right)
         if L is None or R is None or (L[0] == "num" and R[0] == "num") or (sym == "/" and R[0] != "num"):
             mon.out_of_domain(hook)
@@ -216,7 +418,10 @@ def _mk_pow(hook):
             mon.out_of_domain(hook)  # the property speaks of non-negative integer powers only
             return
         power = int(power)
+        if _big_pow(base, power) and _exact_pow(mon, hook, base, power, call):
+            return
         if power > 8:
+            mon.note("pow:large-exponent-of-a-wide-sum")
             mon.out_of_domain(hook)
             return
         if call.exc is not None:
@@ -252,12 +457,42 @@ def _mk_pow(hook):
 
 # ----------------------------------------------------------------------------- monitor: simplify
 def _pre_simplify(mon, call):
-    return D.term_list(call.args[0])
+    me = call.args[0]
+    big = _EXACT_ALL or _maxmag(me) >= BIG_COEFF
+    return D.term_list(me), (X.term_list(me) if big else None)
+
+
+def _exact_simplify(mon, hook, xbefore, call):
+    exp = X.operator(xbefore)
+    if X.total_weight(exp) > RANGE:
+        mon.note("exact:beyond-binary64-range")
+        mon.out_of_domain(hook)
+        return
+    shown = lambda: " + ".join(f"{X.show(c)}*{X.fmt_key(k)}" for k, c in xbefore)  # noqa: E731
+    if call.exc is not None:
+        mon.violation(f"raises:{hook}", f"simplify of {shown()} raised {call.exc!r}")
+        return
+    res = _xoperand(call.result)
+    if res is None or res[0] != "sum":
+        mon.violation(f"result-type:{hook}", f"simplify of {shown()} returned {call.result!r}")
+        return
+    integral = X.all_integral(xbefore)
+    bad = X.compare(res[1], exp, REL, Fraction(0) if integral else DROP * (len(xbefore) + 1))
+    if len(res[1]) < len(xbefore):
+        mon.note("simplify:merged-or-dropped")
+    mon.note("regime:exact-integers" if integral else "regime:exact-generic")
+    if bad is not None:
+        mon.violation("simplify-changes-matrix", f"simplify of {shown()} gave {call.result!r}: {_mismatch_text(bad)}")
+    else:
+        mon.ok(hook)
 
 
 def _post_simplify(mon, call):
     hook = "PauliSum.simplify"
-    before = call.pre
+    before, xbefore = call.pre if call.pre is not None else (None, None)
+    if xbefore is not None:
+        _exact_simplify(mon, hook, xbefore, call)
+        return
     if before is None:
         mon.out_of_domain(hook)
         return
@@ -322,8 +557,8 @@ def _mk_eq(hook):
                 mon.out_of_domain(hook)
                 return
             B = ("term", [([], B[1])])
-        for X in (A, B):
-            if X[0] == "sum" and not _is_simplified(X[1]):
+        for opd in (A, B):
+            if opd[0] == "sum" and not _is_simplified(opd[1]):
                 mon.note("eq:operand-not-simplified")
                 mon.out_of_domain(hook)
                 return
@@ -335,9 +570,13 @@ def _mk_eq(hook):
         if n > MAXN:
             mon.out_of_domain(hook)
             return
-        l2 = D.coeff_l2(_mat(A, qmap, n) - _mat(B, qmap, n), n)
         coeffs = [abs(c) for _, c in A[1]] + [abs(c) for _, c in B[1]]
         cmax = max(coeffs) if coeffs else 0.0
+        if not cmax <= 1e150:
+            mon.note("eq:beyond-the-dense-reference")  # squares of the entries would overflow
+            mon.out_of_domain(hook)
+            return
+        l2 = D.coeff_l2(_mat(A, qmap, n) - _mat(B, qmap, n), n)
         k = max(1, len({tuple(ops) for ops, _ in A[1]} | {tuple(ops) for ops, _ in B[1]}))
         if l2 <= 1e-10:
             if (A[0] == "sum" or B[0] == "sum") and _near_bucket_boundary([A[1], B[1]]):
@@ -536,8 +775,14 @@ def run_case(ctx):
     if cls == "powers":
         kind = rng.choice(["term", "sum"])
         p = rng.choice([0, 1, 2, 3, 4, 5, 5, 3, True])
-        small = G.qubit_pool(rng, k=rng.randint(1, 3 if p >= 4 else 4))
-        a = _operand_spec(rng, small, regime, kind=kind, max_terms=3 if p >= 4 else 4)
+        if ctx.nprng.random() < 0.15:  # (a stream of its own: the other cases of this class stay as they were)
+            # larger exponents: single terms on any strings, sums on at most two qubits (<= 16 strings)
+            p = rng.choice([9, 12, 16, 21, 32, 40, 64])
+            small = G.qubit_pool(rng, k=rng.randint(1, 4) if kind == "term" else rng.randint(1, 2))
+            a = _operand_spec(rng, small, regime, kind=kind, max_terms=3)
+        else:
+            small = G.qubit_pool(rng, k=rng.randint(1, 3 if p >= 4 else 4))
+            a = _operand_spec(rng, small, regime, kind=kind, max_terms=3 if p >= 4 else 4)
         bad = rng.choice([-1, 2.5, "2", -3, 1.0]) if rng.random() < 0.12 else None
         ctx.describe(f"powers {regime} ({G.fmt(a)}) ** {p!r}" + (f" and ** {bad!r}" if bad is not None else ""), _nontrivial(a))
         x = _build(a)
@@ -572,6 +817,8 @@ def run_case(ctx):
         return _magnitudes_case(ctx, regime, pool)
     if cls == "history":
         return _history_case(ctx, regime, pool)
+    if cls == "bigcoef":
+        return _bigcoef_case(ctx, pool)
     raise ValueError(cls)
 
 
@@ -840,6 +1087,237 @@ def _magnitudes_case(ctx, regime, pool):
     x, y = _build(left), _build(right)
     x * y
     y * x
+    return
+
+
+# ----------------------------------------------------------------------------- class: bigcoef
+def _log10(v):
+    """log10 of |v| for ints of any size, floats and complex numbers (0 -> -inf)"""
+    if isinstance(v, complex):
+        v = max(abs(v.real), abs(v.imag))
+    v = abs(v)
+    if v == 0:
+        return -math.inf
+    if isinstance(v, int):
+        b = v.bit_length()
+        return (b - 60) * math.log10(2) + math.log10(v >> (b - 60)) if b > 900 else math.log10(v)
+    return math.log10(v)
+
+
+def _bigcoef_case(ctx, pool):
+    global _EXACT_ALL
+    _EXACT_ALL = True
+    try:
+        _bigcoef_body(ctx, pool)
+    finally:
+        _EXACT_ALL = False
+
+
+def _int_sum(rng, pool, n, around, taken=(), p_int=0.8):
+    """n terms on distinct strings whose coefficients are integers near +-around"""
+    return [(ops, GB.spell(rng, GB.sign(rng) * max(1, GB.near(rng, around)), p_int))
+            for ops in _distinct_ops(rng, pool, n, taken)]
+
+
+def _bigcoef_body(ctx, pool):
+    """Exact integer (and integer-valued float / complex, a few non-integral float) coefficients whose powers,
+    products and sums leave the range of int32, of exactly representable doubles, of int64 / uint64, of float32,
+    and approach the end of the double range, while every operand is far inside.  Nothing new is demanded: the
+    monitors of + - * / ** simplify == judge every call; for these magnitudes they use the exact reference."""
+    T, S = _lib()
+    rng = ctx.rng
+    mode = rng.choice(["term-pow", "term-pow", "sum-pow", "product", "product", "like-sum", "like-sum", "scalar",
+                       "equality"])
+
+    if mode == "term-pow":
+        c, m, n = GB.power_base(rng)
+        ops = G.rand_ops(rng, pool, yheavy=rng.random() < 0.3)
+        route = rng.choice(["plain", "plain", "one-term-sum", "repeated", "chain"])
+        size = n * math.log10(m) if m > 0 else 0.0
+        ctx.describe(f"bigcoef term-pow/{route} ({G.fmt_term((ops, c))}) ** {n} (10^{size:.1f})", size >= 9.3)
+        x = T(dict(ops), c)
+        r = x**n
+        if route == "one-term-sum":
+            rs = S([x]) ** n
+            if size < 120:
+                _eq_both(ctx, r, rs)
+        elif route == "repeated" and n <= 48:
+            p = x
+            for _ in range(n - 1):
+                p = p * x if rng.random() < 0.8 else x * p
+            if size < 120:
+                _eq_both(ctx, r, p)
+        elif route == "chain":
+            a = rng.randint(0, n)
+            (x**a) * (x ** (n - a))
+        if isinstance(c, int) and size < 120:
+            twin = T(dict(ops) if n % 2 else {}, c**n)
+            if _eq_both(ctx, r, twin) and abs(c) ** n < 2**53:
+                ctx.check("hash-consistent", hash(r) == hash(twin), lambda: f"{r!r} == {twin!r} but the hashes differ")
+        return
+
+    if mode == "sum-pow":
+        small = sorted(rng.sample(pool, min(len(pool), rng.choice([1, 2, 2]))))
+        kind = rng.choice(["int", "int", "int", "gauss", "float"])
+        specs = []
+        for ops in _distinct_ops(rng, small, rng.randint(2, 3)):
+            if kind == "int":
+                c = GB.spell(rng, GB.small_int(rng, 9), 0.85)
+            elif kind == "gauss":
+                c = GB.gaussian(rng, 1, 4)
+            else:
+                c = rng.choice([1.5, -0.5, 2.25, 0.75, -3.5, 0.1, 1.7])
+            specs.append((ops, c))
+        s = sum(abs(complex(c).real) + abs(complex(c).imag) for _, c in specs)
+        n = rng.choice([9, 10, 12, 16, 17, 24, 31, 32, 33, 48, 63, 64, 65, 100])
+        while n > 9 and n * math.log10(max(s, 1.1)) > 250:
+            n = n * 2 // 3
+        route = rng.choice(["plain", "plain", "repeated"])
+        ctx.describe(f"bigcoef sum-pow/{route} ({G.fmt_sum(specs)}) ** {n}", len(specs) >= 2)
+        x = _build(specs)
+        x**n
+        if route == "repeated":
+            p = x
+            for _ in range(min(n, 24) - 1):
+                p = p * x
+        return
+
+    if mode == "product":
+        th = GB.boundary(rng)
+        a, b = GB.factor_pair(rng, th)
+        shape = rng.choice(["tt", "tt", "tt", "ts", "st", "ss", "square"])
+        p_int = rng.choice([1.0, 1.0, 0.8, 0.5])
+        if shape == "square":
+            k = rng.choice([2, 2, 3])
+            root = max(2, GB.iroot(th, k) + rng.choice([-1, 0, 1, 1, 2]))
+            left = _int_sum(rng, pool, 1 if rng.random() < 0.6 else 2, root, p_int=p_int)
+            right = left
+            nfac = k
+        else:
+            left = _int_sum(rng, pool, 1 if shape[0] == "t" else rng.randint(1, 3), a, p_int=p_int)
+            right = _int_sum(rng, pool, 1 if shape[1] == "t" else rng.randint(1, 3), b, p_int=p_int)
+            nfac = 2
+        lspec = left[0] if (shape[0] == "t" or shape == "square") and len(left) == 1 else left
+        rspec = right[0] if (shape[1:2] == "t" or shape == "square") and len(right) == 1 else right
+        third = (G.rand_ops(rng, pool), GB.small_int(rng, 9)) if rng.random() < 0.3 else None
+        ctx.describe(f"bigcoef product/{shape} {G.fmt(lspec)} * {G.fmt(rspec)} ({nfac} factors, both orders)"
+                     + (f" then * {G.fmt_term(third)}" if third else "") + f" around 10^{_log10(th):.1f}", True)
+        x, y = _build(lspec), _build(rspec)
+        xy = x * y
+        yx = y * x
+        if nfac == 3:
+            xy * x
+            x * xy
+        if third is not None:
+            z = _build(third)
+            xy * z
+            z * yx
+            x * (y * z)
+        return
+
+    if mode == "like-sum":
+        th = GB.boundary(rng)
+        variant = rng.choice(["split", "split", "split", "edge", "mixed"])
+        sgn = GB.sign(rng)
+        if variant == "split":
+            parts = GB.split(rng, sgn * GB.near(rng, th), rng.choice([2, 2, 3, 4]))
+        elif variant == "edge":
+            parts = [sgn * (th - rng.choice([1, 1, 2])), sgn * rng.choice([1, 1, 2, 3])]
+        else:
+            big = GB.near(rng, 2 * th)
+            parts = [sgn * big, -sgn * GB.near(rng, th // rng.choice([2, 3, 4]))]  # comes back down across th
+        p_int = rng.choice([1.0, 1.0, 0.85])
+        ops = G.rand_ops(rng, pool, yheavy=rng.random() < 0.3)
+        like = [(ops, GB.spell(rng, p, p_int)) for p in parts]
+        filler = _int_sum(rng, pool, rng.randint(0, 2), rng.choice([3, 1000, th // 3, th * 5]), taken=[ops]) \
+            if rng.random() < 0.6 else []
+        route = rng.choice(["simplify", "sum-add", "sum-sub", "term-add", "term-sub", "builtin-sum", "scalar"])
+        ctx.describe(f"bigcoef like-sum/{variant}/{route} like terms {G.fmt_sum(like)} beside {G.fmt_sum(filler)} "
+                     f"around 10^{_log10(th):.1f}", True)
+        if route == "simplify":
+            specs = like + filler
+            rng.shuffle(specs)
+            _build(specs).simplify().simplify()
+        elif route in ("sum-add", "sum-sub"):
+            k = rng.randint(1, len(like) - 1)
+            xs, ys = like[:k] + filler[:1], like[k:] + filler[1:]
+            x = _build(xs)
+            if route == "sum-add":
+                y = _build(ys)
+                x + y
+                y + x
+            else:
+                y = _build([(o, -v) if o == ops else (o, v) for o, v in ys])
+                x - y
+                x + -1 * y
+        elif route in ("term-add", "term-sub"):
+            acc = _build(like[0])
+            for o, v in like[1:]:
+                acc = (acc + T(dict(o), v)) if route == "term-add" else (acc - T(dict(o), -v))
+        elif route == "builtin-sum":
+            terms = [_build(t) for t in like + filler]
+            rng.shuffle(terms)
+            sum(terms)
+        else:
+            # the like terms are constants: one sits in the operator, the others arrive as plain numbers
+            x = _build([((), like[0][1])] + filler)
+            for _, v in like[1:]:
+                x = x + v if rng.random() < 0.5 else v + x
+            y = _build([((), like[0][1])] + filler)
+            y - (-like[1][1])
+            (-like[1][1]) - y
+        return
+
+    if mode == "scalar":
+        th = GB.boundary(rng)
+        a, b = GB.factor_pair(rng, th)
+        spec = _int_sum(rng, pool, rng.choice([1, 1, 2, 3]), a, p_int=0.9)
+        spec = spec[0] if len(spec) == 1 and rng.random() < 0.7 else spec
+        kind = rng.choice(["int", "int", "int", "float", "complex", "gauss"])
+        sb = GB.sign(rng) * b
+        s = sb if kind == "int" else float(sb) if kind == "float" else complex(sb, 0.0) if kind == "complex" \
+            else complex(sb, GB.sign(rng) * GB.near(rng, b))
+        ctx.describe(f"bigcoef scalar operand {G.fmt(spec)} scalar {s!r} (a*s s*a (a*s)/s a/s a+s s-a) "
+                     f"around 10^{_log10(th):.1f}", True)
+        x = _build(spec)
+        p = x * s
+        s * x
+        p / s
+        x / s
+        x + s
+        s - x
+        if isinstance(s, int):
+            # the exact product as operand: divided by the scalar it is the first operand again
+            terms = spec if isinstance(spec, list) else [spec]
+            if all(isinstance(c, int) for _, c in terms):
+                _build([(o, c * s) for o, c in terms]) / s
+        return
+
+    # equality: the same large integer reached by different routes, and integers that differ by a power of two
+    th = GB.boundary(rng, below=10**100)
+    a, b = GB.factor_pair(rng, th)
+    a, b = GB.sign(rng) * a, b
+    N = a * b
+    ops = G.rand_ops(rng, pool, yheavy=rng.random() < 0.3)
+    shifts = [d for d in (2**31, 2**32, 2**63, 2**64, -(2**63), -(2**64)) if abs(d) * 1000 >= abs(N)]
+    N2 = rng.choice([N - d for d in shifts] + [2 * N, -N, N + N // 3])
+    ctx.describe(f"bigcoef equality {G.fmt_term((ops, N))} = {a} * {b} by routes; against {N2}", True)
+    t0 = T(dict(ops), N)
+    t1 = T(dict(ops), a) * T({}, b)
+    t2 = T(dict(ops), b) * a
+    if _eq_both(ctx, t0, t1):
+        ctx.check("hash-consistent", hash(t0) == hash(t1), lambda: f"{t0!r} == {t1!r} but the hashes differ")
+    _eq_both(ctx, t0, t2)
+    _eq_both(ctx, S([t0]), S([t1]))
+    if float(N) == N:
+        t3 = T(dict(ops), float(N))
+        if _eq_both(ctx, t0, t3):
+            ctx.check("hash-consistent", hash(t0) == hash(t3), lambda: f"{t0!r} == {t3!r} but the hashes differ")
+        _eq_both(ctx, S([t0]), S([T(dict(ops), complex(N, 0.0))]))
+    other = T(dict(ops), N2)
+    _eq_both(ctx, t0, other)
+    _eq_both(ctx, S([t0]), S([other]))
+    _eq_both(ctx, S([t0, T({99: "Z"}, 1)]).simplify(), S([T({99: "Z"}, 1), other]).simplify())
     return
 
 
